@@ -5,5 +5,6 @@ def main (args : List String) : IO UInt32 := do
   match args with
   | ["lb"] => Driver.Lb.main; return 0
   | ["lbspec", ops, impl] => Driver.LbSpec.main ops impl; return 0
-  | ["shard", trace] => Driver.Shard.main trace
-  | _ => IO.eprintln "usage: npdriver lb | lbspec <ops> <impl>"; return 2
+  | ["shard", trace] => Driver.Shard.main trace false
+  | ["shard", trace, "nomodel"] => Driver.Shard.main trace true
+  | _ => IO.eprintln "usage: npdriver lb | lbspec <ops> <impl> | shard <trace> [nomodel]"; return 2
